@@ -340,7 +340,7 @@ def run_scenario(sc):
             lo = len(tr.events)
             for op in rnd["calls"]:
                 v = sim.v["trc"]
-                env = v.env.reset(op.get("tape", []), {}, base=100000 * (t + 1) + 1000 * n)
+                env = v.env.reset(op.get("tape", []), op.get("faults", {}), base=100000 * (t + 1) + 1000 * n)
                 n += 1
                 v.mod.ENV = env
                 out, _ = outcome_of(lambda: sim.call_thunk(op)(v, env))
@@ -367,6 +367,7 @@ def run_scenario(sc):
     files = (ptera_dir, reg.__file__, sysv.mod.__file__)
     tracer = make_tracer(sched, files)
     results = [{"outs": [], "events": [], "error": None} for _ in range(nthreads)]
+    envfaults = {}
 
     def body(t):
         th = sc["threads"][t]
@@ -393,10 +394,12 @@ def run_scenario(sc):
                     probe.__enter__()
                 for op in rnd["calls"]:
                     env = tenv._envs[threading.get_ident()]
-                    env.reset(op.get("tape", []), {}, base=100000 * (t + 1) + 1000 * n)
+                    env.reset(op.get("tape", []), op.get("faults", {}), base=100000 * (t + 1) + 1000 * n)
                     n += 1
                     out, _ = outcome_of(lambda: sim.call_thunk(op)(sysv, env))
                     res["outs"].append(out)
+                    for _k, kind, _f in env.fired:
+                        envfaults[kind] = envfaults.get(kind, 0) + 1
                     if has_absent(out) or any(has_absent(e) for e in env.log):
                         viol.append(["C16.no_absent", t, {"out": out}])
                 if probe is not None:
@@ -490,7 +493,7 @@ def run_scenario(sc):
         "viol": viol,
         "foreign": [],
         "herr": herr,
-        "stats": {"faults_fired": {"preemption": sched.npre}, "reach": stats, "kinds": {}},
+        "stats": {"faults_fired": dict(envfaults, preemption=sched.npre), "reach": stats, "kinds": {}},
         "sig": sig,
         "events": sum(len(g) for r in results for g in r["events"]),
         "steps": sched.step,
